@@ -118,6 +118,7 @@ def units(w):
             args.fresh = False
             env = real_env(w, it, {"compare": F.func("compare", ["a", "b"], lambda it_, vs: V.int(it_, it_.fresh("cmp"))),
                                    "identity": F.func("identity", ["obj"], lambda it_, vs: vs[0])})
+            it.global_overlay[("ckl.functions", "seed")] = SInt(z3.Int("seed0"))      # module invariant (C13): the generator state is a number
             return [f, args, env, V.pos(it, "cpos")], {}, {"la": la}
 
         def post(it, c, o, cname=cname):
@@ -160,6 +161,33 @@ def units(w):
             it.check("post:returns-the-container-itself", o.value is cont)
     U.append(Unit("nodes.py::NodeDerefAssign.evaluate", s_assign, p_assign, name="nodes.py::NodeDerefAssign.evaluate[frame, all kinds]",
                   config={"max_unroll": 12}, prepare=c13.install_streams, replay=replay_string_assign))
+
+    # member assignment on an object that inherits the member: the targeted object gets its own member, the prototype (shared
+    # with other objects) is not written
+    def s_assign_proto(depth):
+        def setup(it):
+            protos = [V.object_of(it, [("m", V.int(it, f"inherited{i}"))] if i == depth - 1 else [], f"p{i}") for i in range(depth)]
+            for i in range(depth - 1):
+                protos[i].fields["value"].entries.append(["_proto_", protos[i + 1]])
+            o = V.object_of(it, [("own", V.int(it, "own")), ("_proto_", protos[0])], "o")
+            v = V.int(it, "newvalue")
+            node = Obj(nodes["NodeDerefAssign"], {"expression": S.node("c", o), "index": S.node("i", V._mk("ValueString", {"value": "m"})),
+                                                  "value": S.node("v", v), "pos": V.pos(it)})
+            node.fresh = False
+            return [node, real_env(w, it, {})], {}, {"o": o, "protos": protos, "v": v,
+                                                     "before": [list(map(list, p_.fields["value"].entries)) for p_ in protos]}
+        return setup
+
+    def p_assign_proto(it, c, o):
+        check_frame(it, [("c", c["o"])], "c", o, "node")
+        it.check("post:returns-normally", o.kind == "return")
+        own = {e[0]: e[1] for e in c["o"].fields["value"].entries}
+        it.check("post:the-targeted-object-holds-the-new-member-itself", own.get("m") is c["v"])
+        it.check("post:every-prototype-is-unchanged", all([list(e) for e in p_.fields["value"].entries] == b for p_, b in zip(c["protos"], c["before"])))
+    for depth in (1, 2, 3):
+        U.append(Unit("nodes.py::NodeDerefAssign.evaluate", s_assign_proto(depth), p_assign_proto,
+                      name=f"nodes.py::NodeDerefAssign.evaluate[member inherited through {depth} prototype(s)]", prepare=c13.install_streams,
+                      bounded="prototype chains of depth <= 3", replay=replay_string_assign))
 
     # ------------------------------------------------------------------ reads and literals share references
     def s_ident(it):
